@@ -212,6 +212,7 @@ func history(seed int64, length int, profile string, rec *recorder, ttl bool) {
 	e := &env{vs: vs, ctx: context.Background()}
 	g := &sh.AbsGen{R: rand.New(rand.NewSource(seed)), Store: vs.State, Profile: profile, NoReap: true, NoSerf: true, TxnKV: true, Delays: true}
 	r2 := rand.New(rand.NewSource(seed ^ 0x5eed))
+	armed := map[string]time.Time{} // abstract session id -> instant just before its TTL timer was last (re-)armed
 	// every history starts with the lock-delay situation that a random mix rarely lines up: a session carrying a lock
 	// delay takes a lock and is destroyed; another session then asks for the same key directly and inside a transaction
 	kvc := func(op, key, sess string) M {
@@ -246,6 +247,12 @@ func history(seed int64, length int, profile string, rec *recorder, ttl bool) {
 		if ttl && i >= len(script) && c["t"] == "sess" && c["op"] == "create" && r2.Intn(3) == 0 {
 			c["ttl"] = "150ms"
 		}
+		if ttl && i >= len(script) && expire == "" && r2.Intn(10) == 0 {
+			// renew a live TTL session: its timer starts over
+			if live := e.liveSessions(); len(live) > 0 {
+				c = M{"t": "sess", "op": "renew", "id": live[r2.Intn(len(live))]}
+			}
+		}
 		b, _ := json.Marshal(c)
 		var cj M
 		_ = json.Unmarshal(b, &cj)
@@ -254,13 +261,28 @@ func history(seed int64, length int, profile string, rec *recorder, ttl bool) {
 		before := e.dump()
 		i0 := vs.LastIndex()
 		var res M
-		if expire != "" {
+		if c["t"] == "sess" && (c["op"] == "renew" || (c["op"] == "create" && c["ttl"] != nil)) {
+			armed[c["id"].(string)] = time.Now()
+		}
+		if c["t"] == "sess" && c["op"] == "renew" {
+			var out structs.IndexedSessions
+			if err := e.rpc("Session.Renew", &structs.SessionSpecificRequest{Datacenter: "dc1", SessionID: sh.UUID(c["id"].(string))}, &out); err != nil {
+				res = errRes(err)
+			} else {
+				res = M{"t": "nil"}
+			}
+		} else if expire != "" {
 			// wait for the leader's TTL timer (2 x TTL) to invalidate the session through raft
 			deadline := time.Now().Add(5 * time.Second)
 			res = M{"t": "err", "msg": "session did not expire"}
 			for time.Now().Before(deadline) {
 				if _, s, _ := vs.State().SessionGet(nil, sh.UUID(expire), nil); s == nil {
 					res = M{"t": "nil"}
+					if t0, ok := armed[expire]; ok {
+						// an upper bound of the timer's true age (armed no earlier than t0, fired no later than now)
+						cj["age_ms"] = float64(time.Since(t0).Milliseconds())
+						cj["ttl_ms"] = float64(150)
+					}
 					break
 				}
 				time.Sleep(20 * time.Millisecond)
